@@ -420,7 +420,10 @@ type txResult struct {
 	panicv interface{}
 }
 
-func (w *World) runMsg(plan string, call func(ctx context.Context) (string, error)) (res txResult) {
+// runMsg executes one message the way baseapp does: on a branch of the committed state that is written back only when the
+// handler succeeds.  With discard set the branch is dropped whatever the outcome (simulation / CheckTx, or an early
+// message of a transaction whose later message fails).
+func (w *World) runMsg(plan string, discard bool, call func(ctx context.Context) (string, error)) (res txResult) {
 	w.plan, w.callIdx, w.calls, w.writes = plan, 0, nil, nil
 	ctx := w.ctx()
 	cctx, write := ctx.CacheContext()
@@ -440,7 +443,7 @@ func (w *World) runMsg(plan string, call func(ctx context.Context) (string, erro
 		res.class, res.resp = "ok", resp
 	}()
 	w.tracing = false
-	if res.class == "ok" {
+	if res.class == "ok" && !discard {
 		write()
 		for _, e := range cctx.EventManager().Events() {
 			res.events = append(res.events, formatEvent(e))
